@@ -284,7 +284,12 @@ class BehavioralRTLIRToVVisitorL1( bir.BehavioralRTLIRNodeVisitor ):
   def visit_Number( s, node ):
     """Return a number in string."""
     nbits = node.Type.get_dtype().get_length()
-    return f"{nbits}'d{node.value}"
+    value = node.value
+    if value < 0:
+      # A sized decimal literal cannot carry a sign (e.g. a negative
+      # constant attribute folded into a number): emit its two's complement.
+      value &= (1 << nbits) - 1
+    return f"{nbits}'d{value}"
 
   #-----------------------------------------------------------------------
   # visit_Concat
